@@ -114,6 +114,10 @@ var forkEKU = map[string]ctx509.ExtKeyUsage{"server": ctx509.ExtKeyUsageServerAu
 var cfgEKU = map[string]string{"server": "ServerAuth", "client": "ClientAuth", "email": "EmailProtection", "ipsec": "IPSECEndSystem", "any": "Any"}
 var extOID = map[string]asn1.ObjectIdentifier{"X": oidX, "Y": oidY}
 
+// the model's poison states as pki materializes them
+var poisonKind = map[string]string{"none": "", "ok": "ok", "noncritical": "noncritical", "nonnull": "nonnull", "nullTrailing": "nulltrailing",
+	"nullTrailingTLV": "nulltrailingtlv", "wrongTag": "wrongtag", "longFormNull": "longformnull", "empty": "empty"}
+
 func newWorld(ep epoch, tab *Tables, keys map[string]crypto.Signer) (*world, error) {
 	w := &world{ep: ep, tab: tab, nodes: map[string]*pki.Node{}, der: map[string][]byte{}, pools: map[string]*x509util.PEMCertPool{},
 		roots: map[string][]byte{}, parsed: map[string]*ctx509.Certificate{}}
@@ -146,9 +150,11 @@ func newWorld(ep epoch, tab *Tables, keys map[string]crypto.Signer) (*world, err
 		r := recs[id]
 		na := ep.tick(r.NotAfter)
 		o := pki.Opts{CN: r.Subj, IsCA: r.IsCA, Key: keys[r.Key], NotAfter: na, NotBefore: na.AddDate(-5, 0, 0), Poison: r.Poison}
-		if r.Poison == "none" {
-			o.Poison = ""
+		pk, ok := poisonKind[r.Poison]
+		if !ok {
+			return fmt.Errorf("unknown poison state %q in the model", r.Poison)
 		}
+		o.Poison = pk
 		for _, e := range r.EKUs {
 			if e == "ct" {
 				o.OtherEKUs = append(o.OtherEKUs, pki.OIDEKUCT)
@@ -601,7 +607,7 @@ func (r *runner) kind(c Case, w *world) {
 	}
 	r.rep.Eval("kind:" + c.Ch[0])
 	if got != c.Kind {
-		r.rep.Violate(fmt.Sprintf("IsPrecertificate:spec=%s:got=%s", c.Kind, got),
+		r.rep.Violate(fmt.Sprintf("IsPrecertificate:%s:spec=%s:got=%s", c.Ch[0], c.Kind, got),
 			fmt.Sprintf("IsPrecertificate(%s): specification says %s, implementation says %s (err=%v)", c.Ch[0], c.Kind, got, err), map[string]any{"case": c})
 	}
 }
